@@ -31,6 +31,9 @@ class Link:
         self.trace = []            # last scheduler actions
         self.slow_first_response = 0.0   # hold everything sent towards the active side for this long, once per connection
         self.hold_until = {}             # dst pipe -> monotonic time before which nothing is delivered to it
+        self.break_after = None          # (dst pipe, k): of the next bytes towards dst only the first k arrive, then the network fails
+        self.failures = 0
+        self._fail_now = False
         self.a.on_send = lambda data, gen: self._enqueue(self.p, data)
         self.p.on_send = lambda data, gen: self._enqueue(self.a, data)
         self.thread = threading.Thread(target=stuck.harness_thread(self._run), daemon=True, name="harness-link")
@@ -52,6 +55,17 @@ class Link:
                 continue
             pos = 0
             n = len(data)
+            brk = self.break_after
+            if brk is not None and brk[0] is dst:
+                # the network fails inside this transmission: a prefix arrives, nothing after it (in either direction)
+                self.break_after = None
+                k = max(1, min(brk[1], n - 1)) if n > 1 else 0
+                if k:
+                    dst.feed(data[:k])
+                self._fail_now = True
+                self.failures += 1
+                self._log(f"network failure after {k} of {n} bytes")
+                return
             while pos < n:
                 r = self.rng.random()
                 k = n - pos if r < 0.5 else self.rng.randint(1, min(n - pos, 32)) if r < 0.8 else 1
@@ -82,12 +96,17 @@ class Link:
             self._flush()
             a_up, p_up = self.a.link_up, self.p.link_up
             if self.connected:
+                if self._fail_now:
+                    self._fail_now = False
+                    with self.lock:
+                        self.queue = []
+                    a_up = False      # (forces the teardown below: both sides see the connection end)
                 if not a_up or not p_up:
                     self._flush()
                     self._log(f"teardown a_up={a_up} p_up={p_up}")
-                    if a_up:
+                    if self.a.link_up:
                         self.a.peer_close()
-                    if p_up:
+                    if self.p.link_up:
                         self.p.peer_close()
                     # wait for both close sequences (bounded; a wedge is the check's business)
                     end = time.monotonic() + 5
